@@ -54,7 +54,7 @@ extern "C" int LLVMFuzzerTestOneInput (const uint8_t *data, size_t size) {
 		g_run (data, size, g_prop, g_family, &r, dump, sizeof dump);
 		fprintf (stderr, "SIMFUZZ-VIOLATION sig=%s\n%s\n", r.v.sig, dump);
 		fprintf (stderr, "SIMFUZZ-STATS execs=%lu nontrivial=%lu suppressed=%lu foreign=%lu\n", g_execs, g_nontrivial, g_suppressed, g_foreign);
-		__builtin_trap ();
+		abort ();   /* SIGABRT: libFuzzer writes the crash artifact (SIGSEGV/SIGILL/... belong to the simulator) */
 	} else if (r.v.kind != RT_V_NONE && r.v.kind != RT_V_BUDGET) g_foreign++;
 	return 0;
 }
